@@ -184,7 +184,7 @@ type c12Client struct {
 }
 
 func (c *c12Client) SetResponseCallback(cb abcicli.Callback) {}
-func (c *c12Client) Error() error                             { return nil }
+func (c *c12Client) Error() error                            { return nil }
 
 func (c *c12Client) CheckTxSync(req abci.RequestCheckTx) (*abci.ResponseCheckTx, error) {
 	kind := "new"
